@@ -34,8 +34,8 @@ CONSTANT R
 
 Traces == JsonDeserialize(IOEnv.TRACES)
 
-VARIABLES tid, l, buf, idx, uses, stk, brk, bd, pend, lst, eof, failed
-pvars == <<tid, l, buf, idx, uses, stk, brk, bd, pend, lst, eof, failed>>
+VARIABLES tid, l, buf, idx, uses, stk, brk, bd, pend, lst, eof, failed, errloc
+pvars == <<tid, l, buf, idx, uses, stk, brk, bd, pend, lst, eof, failed, errloc>>
 
 T    == Traces[tid]
 Ev   == T.ev[l]
@@ -60,28 +60,28 @@ BracketStep(b, ty) ==
 
 PInit == /\ tid \in 1..Len(Traces) /\ l = 1
          /\ buf = <<>> /\ idx = 0 /\ uses = <<>> /\ stk = << {} >> /\ brk = <<>> /\ bd = 0
-         /\ pend = <<"none">> /\ eof = FALSE /\ failed = FALSE
+         /\ pend = <<"none">> /\ eof = FALSE /\ failed = FALSE /\ errloc = <<>>
          /\ lst = InitState(Traces[tid].file)
 
 \* FreshStart (C12): the lexer state logged right after parse() re-initialised it
 Begin == /\ Is("begin") /\ l = 1
          /\ Ev.st.pos = 0 /\ Ev.st.line = 1 /\ Ev.st.lstart = 0 /\ Ev.st.file = T.file /\ Ev.st.pend = <<>>
-         /\ Adv /\ UNCHANGED <<buf, idx, uses, stk, brk, bd, pend, lst, eof, failed>>
+         /\ Adv /\ UNCHANGED <<buf, idx, uses, stk, brk, bd, pend, lst, eof, failed, errloc>>
 
 Push == /\ Is("push") /\ ~failed /\ pend = <<"none">>
         /\ stk' = Append(stk, {}) /\ Ev.d = Len(stk) + 1
         /\ pend' = <<"brace", "LBRACE">>
-        /\ Adv /\ UNCHANGED <<buf, idx, uses, brk, bd, lst, eof, failed>>
+        /\ Adv /\ UNCHANGED <<buf, idx, uses, brk, bd, lst, eof, failed, errloc>>
 Pop  == /\ Is("pop") /\ ~failed /\ pend = <<"none">>
         /\ IF Len(stk) > 1
            THEN /\ ~Ev.raised /\ stk' = SubSeq(stk, 1, Len(stk)-1) /\ Ev.d = Len(stk) - 1
                 /\ pend' = <<"brace", "RBRACE">> /\ UNCHANGED failed
            ELSE /\ Ev.raised /\ failed' = TRUE /\ UNCHANGED <<stk, pend>>      \* a '}' that closes nothing
-        /\ Adv /\ UNCHANGED <<buf, idx, uses, brk, bd, lst, eof>>
+        /\ Adv /\ UNCHANGED <<buf, idx, uses, brk, bd, lst, eof, errloc>>
 Look == /\ Is("look") /\ ~failed /\ pend = <<"none">>
         /\ Ev.ans = Lookup(stk, Len(stk), Ev.name)                              \* LookupIsInnermost
         /\ pend' = <<"look", Ev.name, Ev.ans>>
-        /\ Adv /\ UNCHANGED <<buf, idx, uses, stk, brk, bd, lst, eof, failed>>
+        /\ Adv /\ UNCHANGED <<buf, idx, uses, stk, brk, bd, lst, eof, failed, errloc>>
 
 \* one token() call seen from the parser.  The cursor machine is asked with the typedef names
 \* that were visible when the call started: a pending "look" already holds the answer given.
@@ -89,13 +89,16 @@ CallNow == Call(T.text, lst, TypeNames(stk))
 Tok  == /\ Is("tok") /\ ~eof
         /\ IF failed
            THEN /\ Ev.exc # ""                                                   \* the callback's exception propagates
-                /\ UNCHANGED <<buf, uses, brk, bd, pend, lst, eof, failed>>
+                /\ UNCHANGED <<buf, uses, brk, bd, pend, lst, eof, failed, errloc>>
            ELSE LET r == CallNow IN
                 IF r.err # <<>>
                 THEN /\ Ev.exc # "" /\ Ev.errs # <<>>                             \* lexer errors raise inside parse()
                      /\ r.err[1] <= Ev.errs[1] /\ Ev.errs[1] <= r.err[2]
                      /\ failed' = TRUE /\ UNCHANGED <<buf, uses, brk, bd, pend, lst, eof>>
-                ELSE /\ Ev.exc = "" /\ Ev.errs = <<>>
+                     \* ErrorLocExact (C11): the logical position of the offending character
+                     /\ errloc' = IF r.err[1] = r.err[2]      \* (not for malformed directive lines)
+                                  THEN <<r.st.file, r.st.line, Ev.errs[1] - r.st.lstart + 1>> ELSE <<>>
+                ELSE /\ Ev.exc = "" /\ Ev.errs = <<>> /\ UNCHANGED errloc
                      /\ Ev.tok = r.tok                                            \* type, spelling, line, column
                      /\ Ev.st.pos = r.st.pos /\ Ev.st.line = r.st.line /\ Ev.st.lstart = r.st.lstart
                      /\ Ev.st.file = r.st.file /\ Ev.st.pend = r.st.pend
@@ -121,10 +124,10 @@ Nxt  == /\ Is("next") /\ ~failed
         /\ Ev.ix = idx /\ idx < Len(buf)                                          \* IndexInRange
         /\ idx' = idx + 1 /\ uses' = [uses EXCEPT ![idx+1] = @ + 1]
         /\ uses'[idx+1] <= R                                                      \* ReconsumptionBound
-        /\ Adv /\ UNCHANGED <<buf, stk, brk, bd, pend, lst, eof, failed>>
+        /\ Adv /\ UNCHANGED <<buf, stk, brk, bd, pend, lst, eof, failed, errloc>>
 Reset == /\ Is("reset") /\ ~failed
          /\ Ev.frm = idx /\ Ev.to <= idx /\ Ev.to >= 0 /\ idx' = Ev.to            \* ResetBackwards
-         /\ Adv /\ UNCHANGED <<buf, uses, stk, brk, bd, pend, lst, eof, failed>>
+         /\ Adv /\ UNCHANGED <<buf, uses, stk, brk, bd, pend, lst, eof, failed, errloc>>
 Reg  == /\ Is("reg") /\ ~failed /\ pend = <<"none">>
         /\ Ev.d = Len(stk) /\ Ev.bl = Len(buf) /\ Ev.ix = idx
         /\ \A j \in (idx+1)..Len(buf) :                                           \* LookaheadSafe
@@ -132,7 +135,7 @@ Reg  == /\ Is("reg") /\ ~failed /\ pend = <<"none">>
         /\ IF <<Ev.name, ~Ev.t>> \in stk[Len(stk)]                                \* RegisterClash
            THEN Ev.raised /\ failed' = TRUE /\ UNCHANGED stk
            ELSE ~Ev.raised /\ stk' = [stk EXCEPT ![Len(stk)] = @ \cup {<<Ev.name, Ev.t>>}] /\ UNCHANGED failed
-        /\ Adv /\ UNCHANGED <<buf, idx, uses, brk, bd, pend, lst, eof>>
+        /\ Adv /\ UNCHANGED <<buf, idx, uses, brk, bd, pend, lst, eof, errloc>>
 \* the parser itself raised ParseError (syntax error): nothing else to check until the end
 End  == /\ Is("end") /\ l = Len(T.ev)
         /\ (failed => ~Ev.ok)
@@ -142,7 +145,10 @@ End  == /\ Is("end") /\ l = Len(T.ev)
                      /\ Len(stk) = 1 /\ Ev.depth = 1
                      /\ \A j \in 1..Len(buf) : buf[j][1] # "PPHASH")
         /\ Ev.bl = Len(buf) /\ (~failed => Ev.ix = idx)
-        /\ Adv /\ UNCHANGED <<buf, idx, uses, stk, brk, bd, pend, lst, eof, failed>>
+        /\ (errloc # <<>> =>                                                       \* ErrorLocExact (C11)
+              LET pfx == errloc[1] \o ":" \o ToString(errloc[2]) \o ":" \o ToString(errloc[3]) \o ": "
+              IN Len(Ev.msg) >= Len(pfx) /\ SubSeq(Ev.msg, 1, Len(pfx)) = pfx)
+        /\ Adv /\ UNCHANGED <<buf, idx, uses, stk, brk, bd, pend, lst, eof, failed, errloc>>
 
 PNext == Begin \/ Push \/ Pop \/ Look \/ Tok \/ Nxt \/ Reset \/ Reg \/ End
 PSpec == PInit /\ [][PNext]_pvars
